@@ -1,8 +1,8 @@
 """C17 — sf_command never touches more than datasize bytes; string commands terminate; queries are pure.
 
 Lean: SfModel/Command.lean (table of guards / byte ranges / return values / state step), SfProps/C17.lean
-(cmd_in_bounds_partial, string_cmds_terminate, queries_are_pure_partial, the proved negations of the full
-statements).  Correspondence: the complete grid (every command id of include/sndfile.h + undefined ids)
+(cmd_in_bounds, string_cmds_terminate, queries_are_pure at full strength; the rules before the four repairs are
+kept as `…_old_rule` theorems).  The four repaired defects are regression points (findings/C17-*.txt) run first.  Correspondence: the complete grid (every command id of include/sndfile.h + undefined ids)
 x datasize x data kind x handle state x format, `sfh grid c17` (real library, ASan) against
 `sfmodel c17grid` (the model), line by line; the property predicate is evaluated on the implementation's
 own lines.
@@ -185,7 +185,7 @@ def run_combo(ctx, sfh, fname, fmt, state, flavour, ids, full):
     args = [sfh, "grid", "c17", "%x" % fmt, state, flavour]
     pre = subprocess.run(args, input="", capture_output=True, text=True, env=env, timeout=120)
     fl = [l for l in pre.stdout.split("\n") if l.startswith("facts")]
-    res = {"combo": (fname, state, flavour), "points": 0, "aborts": 0, "viol": [], "dis": [], "known": {}, "facts": fl[0] if fl else "",
+    res = {"combo": (fname, state, flavour), "points": 0, "aborts": 0, "viol": [], "dis": [], "facts": fl[0] if fl else "",
            "nontrivial": set(), "skipped": None, "args": ["%x" % fmt, state, flavour]}
     if not fl or "open-failed" in fl[0]:
         res["skipped"] = "handle cannot be opened in this state"
@@ -219,7 +219,6 @@ def run_combo(ctx, sfh, fname, fmt, state, flavour, ids, full):
         m = kv(mbody)
         cmd = int(w[0], 16)
         is_query = m["q"] == "1"
-        kf = m["kf"]
         dead = ibody.startswith(("ABORT", "CRASH", "TIMEOUT"))
         if dead:
             res["aborts"] += 1
@@ -252,19 +251,9 @@ def run_combo(ctx, sfh, fname, fmt, state, flavour, ids, full):
             elif m["term"] == "1" and not (0 <= int(d["z"]) < w[1]):
                 mis = "model: NUL-terminated inside datasize; implementation: first NUL at %s" % d["z"]
         if why is not None:
-            # the property fails on the implementation's own line: known class with its signature, or a violation
-            sig_ok = (kf in ("strlen0", "len-before-check", "crlf-last") and ibody.startswith("ABORT status=77")) or \
-                     (kf == "calc-rdwr" and "same=0:pos" in ibody)
-            if kf != "-" and sig_ok and mis is None:
-                res["known"][kf] = res["known"].get(kf, 0) + 1
-            else:
-                res["viol"].append((w, why, ibody, mbody))
+            res["viol"].append((w, why, ibody, mbody))        # the property fails on the implementation's own line
         elif mis is not None:
-            if kf != "-":
-                # inside a known-finding class the code may also have been repaired: the property holds here
-                res["known"]["repaired:" + kf] = res["known"].get("repaired:" + kf, 0) + 1
-            else:
-                res["dis"].append((w, mis, ibody, mbody))
+            res["dis"].append((w, mis, ibody, mbody))
         if not dead:
             d = kv(ibody)
             if d.get("chg", "-") != "-" or not d.get("same", "1").startswith("1") or d.get("ret", "0") != "0":
@@ -281,39 +270,62 @@ def replay_text(combo_args, w, why, ibody, mbody, expect):
                combo_args[0], combo_args[1], combo_args[2], w[0], w[1], w[2], expect))
 
 
-def do_replay(ctx, path):
-    text = open(path).read()
-    m = re.search(r"^c17-point (\S+) (\S+) (\S+) (\S+) (\d+) (\S+)$", text, re.M)
-    if not m:
-        print(text)
-        print("replay: this file names a theorem / correspondence stream, there is no point to run")
-        ctx.report(path, no_input=True)
-        return
-    fmt, state, flavour, cid, size, kind = m.groups()
+def run_point(ctx, args, symbolize=False):
+    """One grid point in its own process on a fresh handle; returns (line body, whole output, stderr tail)."""
     env = dict(os.environ)
-    env["ASAN_OPTIONS"] = ASAN.replace("symbolize=0", "symbolize=1")
-    p = subprocess.run([ctx.sfh(), "grid", "c17", "point", fmt, state, flavour, cid, size, kind], capture_output=True, text=True, env=env, timeout=120)
+    env["ASAN_OPTIONS"] = ASAN.replace("symbolize=0", "symbolize=1") if symbolize else ASAN
+    p = subprocess.run([ctx.sfh(), "grid", "c17", "point"] + list(args), capture_output=True, text=True, env=env, timeout=120)
     out = p.stdout.strip()
     if p.returncode == 77:
         out += " ABORT status=77"
     elif p.returncode < 0:
         out += " CRASH signal=%d" % (-p.returncode)
-    print(out)
-    if p.returncode != 0:
-        print(p.stderr[-2500:])
+    elif p.returncode == 3:
+        out += " TIMEOUT"
     body = out.split("|", 1)[1].strip() if "|" in out else out
-    cmd = int(cid, 16)
-    q = model_is_query(ctx, cid)
-    why = predicate(cmd, int(size), kind, body, q)
+    dm = re.search(r"(ABORT status=\d+|CRASH signal=\d+|TIMEOUT)", body)
+    if dm:
+        body = dm.group(1)
+    return body, out, p.stderr[-2500:]
+
+
+POINT_RE = re.compile(r"^c17-point (\S+) (\S+) (\S+) (\S+) (\d+) (\S+)$", re.M)
+
+
+def eval_points(ctx, text, symbolize=False, verbose=False):
+    """Run every `c17-point` of a replay / regression file.  Returns list of (args, body, why) for the failing ones."""
     em = re.search(r"^expect (.*)$", text, re.M)
-    bad = why is not None
-    if em and em.group(1).strip() not in ("", "property") and em.group(1).strip() not in body:
-        pass
+    expect = em.group(1).strip() if em else ""
+    bad = []
+    for m in POINT_RE.finditer(text):
+        args = m.groups()
+        body, out, err = run_point(ctx, args, symbolize)
+        if verbose:
+            print(out)
+        why = predicate(int(args[3], 16), int(args[4]), args[5], body, model_is_query(ctx, args[3]))
+        if why is None and expect not in ("", "property") and expect not in body:
+            why = "expected `%s` on the line" % expect
+        if why is not None:
+            if verbose and err.strip():
+                print(err)
+            bad.append((args, body, why))
+    return bad
+
+
+def do_replay(ctx, path):
+    text = open(path).read()
+    if not POINT_RE.search(text):
+        print(text)
+        print("replay: this file names a theorem / correspondence stream, there is no point to run")
+        ctx.report(path, no_input=True)
+        return
+    bad = eval_points(ctx, text, symbolize=True, verbose=True)
+    for (args, body, why) in bad:
+        print("replay: %s: %s" % (" ".join(args), why))
     if bad:
-        print("replay: property violated: %s" % why)
         ctx.report(path)
     else:
-        print("replay: the property holds at this point on this tree")
+        print("replay: the property holds at every point of this file on this tree")
 
 
 def model_is_query(ctx, cid):
@@ -326,26 +338,31 @@ def model_is_query(ctx, cid):
 
 
 def check_known_witnesses(ctx):
-    """Replay the witness of every known finding; print KNOWN-FINDING while it still fails with its signature."""
-    env = dict(os.environ)
-    env["ASAN_OPTIONS"] = ASAN
-    still = {}
+    """Entries of known_findings.jsonl: a `known` one prints KNOWN-FINDING while its witness still fails with its
+    signature; a `fixed` one is a regression test — its points must satisfy the property (and the recorded
+    expectation) on this tree, else VIOLATION with the witness file as the concrete replay."""
+    n = 0
     for e in ctx.known:
         wpath = os.path.join(VERIF, e["witness"])
         try:
             text = open(wpath).read()
         except OSError:
             continue
-        m = re.search(r"^c17-point (\S+) (\S+) (\S+) (\S+) (\d+) (\S+)$", text, re.M)
-        if not m:
+        if not POINT_RE.search(text):
             continue
-        p = subprocess.run([ctx.sfh(), "grid", "c17", "point"] + list(m.groups()), capture_output=True, text=True, env=env, timeout=120)
-        out = p.stdout.strip() + (" ABORT status=77" if p.returncode == 77 else "")
-        fails = e["signature"] in out
-        still[e["class"]] = (e, fails)
-        if fails and e.get("status") == "known":
+        bad = eval_points(ctx, text)
+        n += len(POINT_RE.findall(text))
+        if e.get("status") == "fixed":
+            if bad:
+                (args, body, why) = bad[0]
+                ctx.violation("regression-" + e["id"],
+                              "# C17 regression: the defect %s (repaired in %s) is back\n# %s\n# point `%s`: %s\n# implementation: %s\n"
+                              "# all points of the regression file (re-run: bin/check C17 --replay <this file>):\n%s"
+                              % (e["id"], e.get("commit", "?"), e.get("text", ""), " ".join(args), why, body,
+                                 "\n".join(l for l in text.split("\n") if l.startswith(("c17-point", "expect")))))
+        elif bad and all(e["signature"] in b[1] for b in bad):
             ctx.known_finding(e)
-    return still
+    return n
 
 
 def run(ctx):
@@ -374,7 +391,8 @@ def run(ctx):
         ctx.violation("consts", "struct sizes / offsets of this build differ from the model's constants: %s\nharness: %s\nmodel:   %s\n"
                       % (const_diff, c, mc), no_input=True)
 
-    still = check_known_witnesses(ctx)
+    ctx.notes["regression_points_run"] = check_known_witnesses(ctx)
+    found_input = found_input or bool(ctx.violations and not ctx.violations[-1][1])
 
     # ---- 3. the grid ----
     jobs = []
@@ -394,7 +412,6 @@ def run(ctx):
         for f in futs:
             results.append(f.result())
 
-    known_counts = {}
     combos_run, combos_skipped = 0, []
     nviol = ndis = 0
     dis_digest = {}
@@ -406,8 +423,6 @@ def run(ctx):
         ctx.count(r["points"])
         ctx.coverage["traces_validated_against_impl"] += r["points"]
         ctx.distinct |= r["nontrivial"]
-        for k, v in r["known"].items():
-            known_counts[k] = known_counts.get(k, 0) + v
         for (w, why, ibody, mbody) in sorted(r["viol"], key=lambda v: 0 if (int(v[0][0], 16), v[0][1]) in OBSERVERS else 1):
             nviol += 1
             found_input = True
@@ -433,7 +448,6 @@ def run(ctx):
                                   replay_text(r["args"], w, mis, ibody, mbody, "property"), no_input=True)
     ctx.notes["combos_run"] = combos_run
     ctx.notes["combos_skipped"] = combos_skipped
-    ctx.notes["points_in_known_finding_classes"] = known_counts
     ctx.notes["sanitizer_aborts_observed"] = sum(r["aborts"] for r in results)
     ctx.notes["property_violations_found"] = nviol
     ctx.notes["model_disagreements"] = ndis
@@ -441,14 +455,6 @@ def run(ctx):
         ctx.notes["model_disagreement_digest"] = dict(sorted(dis_digest.items())[:400])
     for r in results[:2]:
         ctx.sample({"combo": "/".join(r["combo"]), "points": r["points"], "facts": r["facts"][:400]})
-
-    # a class that still shows up in the grid but has no known-findings entry is a violation already (handled above:
-    # kf classes are only waived when listed)
-    listed = {e["class"] for e in ctx.known if e.get("status") == "known"}
-    for k, v in known_counts.items():
-        base = k.split(":")[-1]
-        if not k.startswith("repaired:") and base not in listed:
-            ctx.violation("unlisted-class-" + base, "%d grid points fail in class %s, which has no entry in known_findings.jsonl\n" % (v, base), no_input=True)
 
     if failed and not found_input:
         ctx.violation("lean-stage", "theorem(s) no longer check: %s\nno failing input found by the complete sf_command grid\n%s"
